@@ -11,6 +11,7 @@ import PysersicModel.Driver.Results
 import PysersicModel.Driver.Loss
 import PysersicModel.Driver.Render
 import PysersicModel.Driver.Prob
+import PysersicModel.Driver.MapDict
 
 open Pysersic
 
@@ -44,6 +45,8 @@ def dispatch (line : String) : String :=
     | "multiprior" => Driver.multiPriorCmd args
     | "sites" => Driver.sitesCmd args
     | "baselp" => Driver.baseLpCmd args
+    | "mapkeys" => Driver.mapKeysCmd args
+    | "regroup" => Driver.regroupCmd args
     | _ => "bad-op " ++ cmd
 
 partial def loop (h : IO.FS.Stream) (out : IO.FS.Stream) : IO Unit := do
